@@ -31,6 +31,10 @@ class Stats:
         self.solver_s = 0.0
         self.max_query_s = 0.0
         self.nodes_sent = 0
+        self.cross_done = 0         # queries re-decided by a second solver binary (sample)
+        self.cross_agree = 0
+        self.cross_unknown = 0
+        self.cross_disagree = 0
 
 
 class PipeSolver:
@@ -276,6 +280,22 @@ class ApiSolver(PipeSolver):
         dt = time.time() - t0
         st.solver_s += dt
         st.max_query_s = max(st.max_query_s, dt)
+        # second solver: a sample of the decided queries of every job is exported as stand-alone SMT-LIB and decided again by
+        # the /usr/bin/z3 4.8.12 binary (and by cvc5 when VERIF_CROSSCHECK_CVC5=1); a disagreement makes the query
+        # inconclusive (never a pass, never a violation); a second solver that does not answer in time counts as 'unknown'
+        cc = int(os.environ.get('VERIF_CROSSCHECK', '0') or 0)
+        if cc and st.cross_done < cc and r in (z3.sat, z3.unsat) and len(text) < 4000000:
+            st.cross_done += 1
+            for which in (['z3-4.8.12', 'cvc5'] if os.environ.get('VERIF_CROSSCHECK_CVC5') else ['z3-4.8.12']):
+                r2 = cross_check(text + '(check-sat)\n', which, timeout_s=20)
+                if r2 == 'unknown':
+                    st.cross_unknown += 1
+                elif r2 != str(r):
+                    st.cross_disagree += 1
+                    st.unknown += 1
+                    return 'unknown', 'solver disagreement: z3 5.1 says %s, %s says %s' % (r, which, r2)
+                else:
+                    st.cross_agree += 1
         if r == z3.unsat:
             st.unsat += 1
             return 'unsat', None
